@@ -509,6 +509,9 @@ class UTPM(Ring, RawAlgorithmsMixIn):
                 for p in range(P):
                     self.data[d,p,...] *= rhs
         else:
+            if numpy.may_share_memory(self.data, rhs.data):
+                # x *= x, x *= view of x: the loop below would read coefficients it has already updated
+                rhs = rhs.copy()
             for d in range(D)[::-1]:
                 for p in range(P):
                     self.data[d,p,...] *= rhs.data[0,p,...]
